@@ -938,6 +938,8 @@ while (!stop_flag) {
         }
     }
 }
+if (stop_flag)
+    query_context.input_iterator.stop(); // The rest of the input is not needed. A stream-based iterator would keep reading and queueing it (forever, if the input is unbounded)
 `;
 
 
